@@ -80,6 +80,8 @@ mod c_time;
 mod c_amf0;
 mod c_chunk;
 mod c_msg;
+mod c_server;
+mod c_client;
 
 fn run_case(line: &str) -> String {
     let mut it = line.splitn(2, ' ');
@@ -90,6 +92,8 @@ fn run_case(line: &str) -> String {
         "amf0" => c_amf0::run(rest),
         "chunk" => c_chunk::run(rest),
         "msg" => c_msg::run(rest),
+        "server" => c_server::run(rest),
+        "client" => c_client::run(rest),
         _ => format!("HARNESS-UNKNOWN-COMPONENT {}", comp),
     }
 }
